@@ -45,6 +45,26 @@ PROPS = {
         required="spec",
         nontrivial="history reuses an index or contains a failing batch deletion",
     ),
+    "C14": dict(
+        domain="saveload", module="Props.C14",
+        theorems=["C14_serialize_image", "C14_serialize_panics_only_on_dangling", "C14_round_trip", "C14_bijection",
+                  "C14_entity_count", "C14_serialize_data_spec", "C14_recursive_closure", "C14_recursive_round_trip",
+                  "C14_recursive_fuel_enough"],
+        required="faithful",
+        nontrivial="history contains a round trip into an empty world whose data has at least two records and at "
+                   "least one reference slot",
+    ),
+    "C15": dict(
+        domain="saveload", module="Props.C15",
+        theorems=["C15_history_invariant", "C15_invariant_empty", "C15_invariant_meaning", "C15_ids_unique",
+                  "C15_mapping_agrees", "C15_counter_above", "C15_mark_existing", "C15_mark_fresh", "C15_load_merges",
+                  "C15_load_components", "C15_load_removes_absent", "C15_load_untouched", "C15_repeated_load",
+                  "C15_stale_not_trusted", "C15_alloc_maintain_exact", "C15_nonfresh_id_refuted",
+                  "C15_u64_wrap_refuted"],
+        required="faithful",
+        nontrivial="history contains a load into a world that already holds one of the data's marker ids and that "
+                   "also creates an entity, or a Mark of an already marked entity",
+    ),
 }
 
 # ------------------------------------------------------------------ known findings
@@ -418,12 +438,18 @@ def run_check(pid, tier, seed):
     dom = PROPS[pid]["domain"]
     if dom == "world":
         return check_world(pid, tier, seed)
+    if dom == "saveload":
+        from . import saveload_check      # imported here: saveload_check imports this module
+        return saveload_check.check_saveload(pid, tier, seed)
     raise SystemExit("unknown domain")
 
 
 def replay(path):
     obj = json.load(open(path))
     pid = obj["property"]
+    if obj.get("domain") == "saveload":
+        from . import saveload_check
+        return saveload_check.replay_saveload(obj, path)
     if "encoded" not in obj:
         print(json.dumps(obj, indent=1))
         return 1
